@@ -526,8 +526,8 @@ def gen_program(R, shape):
         return dict(text=_wrap(["x = 0"], body), goals=[[["x", 1]]], shape=shape, expect="value")
     if shape == "init":           # draw and its functions in the initial block: the same random value in every iteration
         fam, ps = _pick_dist(R)
-        init = [f"u = {_dist_txt(fam, ps)}", "s = Sin(u)", "c = Cos(u)", "x = 0", "y = 1"]
-        body = [f"x = x + {coef}s", "y = y*c"]
+        init = [f"u = {_dist_txt(fam, ps)}", "s = Sin(u)", "c = Cos(u)", "x = 0", "y = 0"]
+        body = [f"x = x + {coef}s", "y = y + c*s"]
         return dict(text=_wrap(init, body), goals=[[["x", 1]], [["x", 2]], [["y", 1]]], shape=shape, expect="value")
     if shape == "conddist":       # Sin of a conditioned draw: documented as unsupported (must be refused or right)
         fam, ps = _pick_dist(R)
